@@ -1,8 +1,9 @@
 import GormModel.Drv.Util
 import GormModel.Model.TxFault
+import GormModel.Model.Stages
 open Lean
 namespace Gorm.Drv
-open Gorm.TxF
+open Gorm.TxF Gorm.Stg
 namespace HC05
 
 def optStr? (j : Json) : Option (Option String) :=
@@ -31,7 +32,11 @@ end HC05
 open HC05 in
 /-- ["c05.begin", skip, db.Error|null, beginRes]                      -> state after BeginTransaction
     ["c05.finish", skip, started, db.Error|null, commitErr|null, rollbackErr|null] -> state after CommitOrRollbackTransaction
-    ["c05.run", skip, beginRes, [stmtErr|null…], commitErr|null, rollbackErr|null] -> state after the whole write -/
+    ["c05.run", skip, beginRes, [stmtErr|null…], commitErr|null, rollbackErr|null] -> state after the whole write
+    ["c05.scantail", mode, db.Error|null, rowsErr|null, same]                      -> db.Error after the tail of Scan
+    ["c05.qstmt", mode, callErr|null, loopErr|null, rowsErr|null, same, closeErr|null] -> db.Error after a query-path statement
+    ["c05.xstmt", isCreate, supportReturning, callErr|null, affected, rowsAffErr|null, lastIdOk, lastIdErr|null]
+                                                                                  -> db.Error after an exec-path statement -/
 def handleC05 (op : String) (args : Array Json) : Option Json := do
   match op with
   | "c05.begin" =>
@@ -53,6 +58,29 @@ def handleC05 (op : String) (args : Array Json) : Option Json := do
     let c ← optStr? (arg args 4)
     let r ← optStr? (arg args 5)
     some (stJ (runWrite skip b es c r))
+  | "c05.scantail" =>
+    let mode ← jNat? (arg args 1)
+    let cur ← optStr? (arg args 2)
+    let re ← optStr? (arg args 3)
+    let same ← jBool? (arg args 4)
+    some (optStrJ (scanTail mode cur re same))
+  | "c05.qstmt" =>
+    let mode ← jNat? (arg args 1)
+    let ce ← optStr? (arg args 2)
+    let le ← optStr? (arg args 3)
+    let re ← optStr? (arg args 4)
+    let same ← jBool? (arg args 5)
+    let cl ← optStr? (arg args 6)
+    some (optStrJ (queryStmt mode none { callErr := ce, loopErr := le, rowsErr := re, sameAsCur := same, closeErr := cl }))
+  | "c05.xstmt" =>
+    let isCreate ← jBool? (arg args 1)
+    let sr ← jBool? (arg args 2)
+    let ce ← optStr? (arg args 3)
+    let aff ← jNat? (arg args 4)
+    let ra ← optStr? (arg args 5)
+    let ok ← jBool? (arg args 6)
+    let le ← optStr? (arg args 7)
+    some (optStrJ (execStmt isCreate sr none { callErr := ce, affected := aff, rowsAffErr := ra, lastIdOk := ok, lastIdErr := le }))
   | _ => none
 
 end Gorm.Drv
